@@ -62,6 +62,8 @@ def run(ctx):
 
     for rel, ccls, acls, dcls, full in FAMILIES:
         # ============================================================ L1
+        from ..rules_stream import s_range
+        s_range(ctx, "L1", fx_of(ctx, rel, ccls), ccls, "self.counter")
         fx = fx_of(ctx, rel, ccls)
         fail_closed(ctx, fx, ccls)
         prio(ctx, "L1", fx, ccls) if False else None
